@@ -1,17 +1,23 @@
 import Spine.LocalTree
+import Spine.Generated.Functions
 open Spine.LTree
 /-! Line protocol for the local device tree model (C07). One op per line, one answer per line:
     the observations of the step joined by " ; " ("-" if none). -/
 def b01 (b : Bool) : String := if b then "1" else "0"
-def showFn (f : Fn) : String := s!"{f.fn}/{b01 f.read}/{b01 f.write}"
+/-- function/read/read.partial/write/write.partial as `Operations.Information` renders them -/
+def showFn (f : Fn) : String :=
+  let (r, rp, w, wp) := f.info
+  s!"{f.fn}/{b01 r}/{b01 rp}/{b01 w}/{b01 wp}"
+def showDev (c : DevCfg) : String := s!"{c.addr}:{c.dtype}:{c.fset}"
 def showFeat (f : Feat) : String :=
   let fns := (f.fns.toArray.qsort (fun a b => a.fn < b.fn)).toList
   s!"{f.id}:{f.typ}:{f.role}:{f.descr}:[" ++ ",".intercalate (fns.map showFn) ++ "]"
 def showObs : Obs → String
   | .notify p added k et feats => s!"N {p} {b01 added} {k} {et} [" ++ ";".intercalate (feats.map showFeat) ++ "]"
   | .ucNotify p => s!"U {p}"
-  | .reply p ents feats =>
-    s!"R {p} E " ++ ",".intercalate (ents.map fun (k, et) => s!"{k}:{et}") ++ " | F " ++
+  | .destList p es => s!"L {p} " ++ ",".intercalate (es.map showDev)
+  | .reply p dev ents feats =>
+    s!"R {p} D {showDev dev} E " ++ ",".intercalate (ents.map fun (k, et) => s!"{k}:{et}") ++ " | F " ++
       ";".intercalate (feats.map fun (k, f) => s!"{k}/" ++ showFeat f)
   | .ret id => s!"{id}"
 def showAll (os : List Obs) : String := if os.isEmpty then "-" else " ; ".intercalate (os.map showObs)
@@ -27,7 +33,8 @@ def parseOp : List String → Option Op
     | "renew", some [k, et] => some (.renew k et)
     | "feat", some [k, t, r] => some (.feat k t r)
     | "next", some [k] => some (.nextId k)
-    | "fn", some [k, fid, fn, r, w] => some (.addFn k fid fn (r == 1) (w == 1))
+    | "fn", some [k, fid, fn, r, w, cap] => some (.addFn k fid fn (r == 1) (w == 1) (cap == 1))
+    | "dread", some [p, known] => some (.destRead p (known == 1))
     | "descr", some [k, fid, d] => some (.setDescr k fid d)
     | "sub", some [p] => some (.sub p)
     | "unsub", some [p] => some (.unsub p)
@@ -35,19 +42,55 @@ def parseOp : List String → Option Op
     | "read", some [p] => some (.read p)
     | _, _ => none
 
-/-- driver state: the model state and the peers whose connection cannot be written to (`world abc`, one digit per
-    peer, 1 = failing; must precede the ops of a history, `reset` clears it) -/
+/-- the function's data supports partial updates on a feature of that type: the function is in the feature type's
+    factory table and its payload implements `Updater` (regenerated table `Spine.Generated.Functions`) -/
+def capOf (ftName fnName : String) : Bool :=
+  match Spine.Generated.featureFunctions.find? (·.1 == ftName) with
+  | none => false
+  | some (_, keys) =>
+    match Spine.Generated.functions.find? (·.name == fnName) with
+    | none => false
+    | some row => keys.contains row.key && row.updater
+
+/-- driver state: the model state, the peers whose connection cannot be written to and the harness's name tables
+    (`world abc [dtype fset]`: one digit per peer, 1 = failing, then the device configuration; must precede the ops of
+    a history, `reset` clears it; `name t|f IDX NAME` registers the name behind a feature-type / function index,
+    kept across `reset`) -/
 structure D where
-  s : St := init
+  s : St := init {}
   failing : List Nat := []
+  tnames : List (Nat × String) := []
+  fnames : List (Nat × String) := []
+
+def D.cap (d : D) (k fid fn : Nat) : Bool :=
+  match (d.s.pool k).feats.find? (·.id = fid) with
+  | none => false
+  | some f =>
+    match d.tnames.find? (·.1 = f.typ), d.fnames.find? (·.1 = fn) with
+    | some (_, tn), some (_, fnn) => capOf tn fnn
+    | _, _ => false
 
 def answer (d : D) (ws : List String) : D × String :=
   let out := fun (os : List Obs) => showAll (delivered d.failing os)
   match ws with
-  | ["reset"] => ({}, "ok")
-  | ["world", flags] =>
+  | ["reset"] => ({ d with s := init {}, failing := [] }, "ok")
+  | ["name", "t", i, n] => match i.toNat? with
+    | some i => ({ d with tnames := (i, n) :: d.tnames }, "ok")
+    | none => (d, "bad-op")
+  | ["name", "f", i, n] => match i.toNat? with
+    | some i => ({ d with fnames := (i, n) :: d.fnames }, "ok")
+    | none => (d, "bad-op")
+  | "world" :: flags :: rest =>
     let fl := (flags.toList.zipIdx.filter fun (c, _) => c == '1').map (·.2)
-    ({ d with failing := fl }, "ok")
+    match nums rest with
+    | some [] => ({ d with failing := fl }, "ok")
+    | some [dt, fs] => ({ d with failing := fl, s := init ⟨0, dt, fs⟩ }, "ok")
+    | _ => (d, "bad-op")
+  | ["fn", k, fid, fn, r, w] => match nums [k, fid, fn, r, w] with
+    | some [k, fid, fn, r, w] =>
+      let (s', os) := step d.s (.addFn k fid fn (r == 1) (w == 1) (d.cap k fid fn))
+      ({ d with s := s' }, out os)
+    | _ => (d, "bad-op")
   | ["resolve", k, id] => match nums [k, id] with
     | some [k, id] => (d, match resolve d.s k id with | some f => showFeat f | none => "none")
     | _ => (d, "bad-op")
